@@ -58,6 +58,56 @@ theorem offsets_eq (i T : Nat) (hi : 0 < i) :
   rw [loop_spec T i T 0 hi (by omega)]
   simp
 
+theorem mem_offsets_iff (i T o : Nat) (hi : 0 < i) : o ∈ offsets i T ↔ ∃ k, o = k * i ∧ o < T := by
+  rw [offsets_eq i T hi]
+  simp only [List.mem_map, List.mem_range]
+  have hs := ceilDiv_spec T i hi
+  constructor
+  · rintro ⟨k, hk, rfl⟩
+    refine ⟨k, rfl, ?_⟩
+    apply Nat.lt_of_not_le
+    intro hle
+    have := hs.2 k hle
+    omega
+  · rintro ⟨k, rfl, hlt⟩
+    refine ⟨k, ?_, rfl⟩
+    apply Nat.lt_of_not_le
+    intro hle
+    have := Nat.mul_le_mul_right i hle
+    omega
+
+theorem loopDrift_length (d : Nat → Nat) (fuel i T t now k : Nat) :
+    (loopDrift d fuel i T t now k).length = (loop fuel i T t).length := by
+  induction fuel generalizing t now k with
+  | zero => rfl
+  | succ f ih =>
+    unfold loopDrift loop
+    by_cases h : t < T
+    · simp [h, ih]
+    · simp [h]
+
+theorem loopDrift_ge (d : Nat → Nat) (fuel i T t now k : Nat) (h0 : t ≤ now) :
+    ∀ p ∈ List.zip (loop fuel i T t) (loopDrift d fuel i T t now k), p.1 ≤ p.2 := by
+  induction fuel generalizing t now k with
+  | zero => intro p hp; simp [loop, loopDrift] at hp
+  | succ f ih =>
+    unfold loopDrift loop
+    by_cases h : t < T
+    · simp only [h, if_true, List.zip_cons_cons, List.mem_cons]
+      rintro p (rfl | hp)
+      · exact h0
+      · exact ih (t + i) (now + i + d k) (k + 1) (by omega) p hp
+    · intro p hp; simp [h] at hp
+
+theorem loopDrift_zero (fuel i T t k : Nat) : loopDrift (fun _ => 0) fuel i T t t k = loop fuel i T t := by
+  induction fuel generalizing t k with
+  | zero => rfl
+  | succ f ih =>
+    unfold loopDrift loop
+    by_cases h : t < T
+    · simp only [h, if_true, Nat.add_zero]; rw [ih]
+    · simp [h]
+
 /-- with `i = 0` the loop uses up any amount of fuel: it does not terminate -/
 theorem loop_stuck (fuel T : Nat) (hT : 0 < T) : loop fuel 0 T 0 = stuckPrefix fuel := by
   induction fuel with
